@@ -34,6 +34,11 @@ CLAIMS = {
   'design_ref': 'DESIGN.md section 4 / C12 and Appendix B',
   'note': 'Trusted: abstract asyncio Future model (InvalidStateError on done futures, async_timeout cancels the awaited future), cooperative scheduling, the independent-iterations loop rule (frame-checked). Three defects found and fixed (36711ee, 687c0d2, 407c005).',
  },
+ 'C18': {
+  'text': 'Proof. The ticket generator is verified through a loop contract on its real body (invariant 1 <= idx <= 2^32-1, each iteration yields the cyclic successor) plus the modular lemma that two draws fewer than 2^32-1 apart differ; a whole-tree frame scan proves every writer of SearchManager.requests draws its key from the manager\'s one generator. _on_peer_search_reply is executed against a dictionary of unknown size (lazy initialisation): a result event for exactly the registered request iff the ticket is registered, stored iff configured, connection closed either way, nothing else touched. _attach_request_timer_and_emit, the three search entry points, _timeout_search_request, remove_request and the wishlist timeout rule are executed symbolically; Timer is executed through start/cancel/finish/reschedule histories with done-callbacks run as separate later activations: the handle always designates the one live runner, so a cancelled or re-armed timer cannot fire for a superseded deadline.',
+  'design_ref': 'DESIGN.md section 4 / C18',
+  'note': 'Trusted: asyncio task/callback model, asyncio.sleep not returning early (wall-clock "not before" is not decided), lazy-initialisation model of the requests dictionary; distinctness holds while fewer than 2^32-2 tickets are drawn during the life of a request. Three defects found and fixed (1b561b1, 818ac00, a6e3714).',
+ },
 }
 
 NA_DEFAULT = 'check not built yet (work in progress; see DESIGN.md section 4 for the planned contracts)'
